@@ -96,7 +96,8 @@ def gen_case(rng, tier, index):
         ops = [o for o in ops if o[0] in ("get", "slice", "list", "len", "contains", "index", "count")][:6]
     return {"lines": lines, "final_nl": rng.random() < 0.7, "variant": VARIANTS[index % len(VARIANTS)], "ops": ops,
             "index": rng.choice(["built", "built", "built", "subset", "perm"]), "index_seed": rng.randrange(1 << 20),
-            "ending": ENDINGS[rng.randrange(len(ENDINGS))], "save_to": rng.choice(["path", "path", "stringio", "file"])}
+            "ending": ENDINGS[rng.randrange(len(ENDINGS))], "save_to": rng.choice(["path", "path", "stringio", "file"]),
+            "names": rng.choice([None, None, None, "relative_target", "source_is_target_tmp"])}
 
 
 def shrinkable(case):
@@ -135,7 +136,8 @@ def run_case(case, res):
 def _run(case, res):
     import windpyutils.files as wf
     d = scratch()
-    src = os.path.join(d, "src.txt")
+    # the source may be called "<target>.tmp" (somebody's half-finished download): saving next to it must not touch it
+    src = os.path.join(d, "saved.txt.tmp" if case.get("names") == "source_is_target_tmp" else "src.txt")
     vname, _, rkind = case["variant"].partition(":")
     is_rec = bool(rkind)
     plain_lines = list(case["lines"])
@@ -327,7 +329,16 @@ def _run(case, res):
         out = os.path.join(d, "saved.txt")
         if os.path.exists(out):
             os.remove(out)
-        if case["save_to"] == "path":
+        if case["save_to"] == "path" and case.get("names") == "relative_target":
+            # a bare file name, relative to the current directory
+            cwd = os.getcwd()
+            os.chdir(d)
+            try:
+                got = outcome(lambda: obj.save("saved.txt", ending))
+            finally:
+                os.chdir(cwd)
+            data = open(out, "rb").read() if os.path.exists(out) else None
+        elif case["save_to"] == "path":
             got = outcome(lambda: obj.save(out, ending))
             data = open(out, "rb").read() if os.path.exists(out) else None
         elif case["save_to"] == "file":
